@@ -29,6 +29,9 @@ type Tail struct {
 	Keep     int    `json:"keep,omitempty"`     // truncated: bytes of one more message that still arrive (1..len-1)
 	Declared int    `json:"declared,omitempty"` // short-length: the declared message length 0..19
 	Trailing int    `json:"trailing,omitempty"` // short-length: bytes following that header
+	// UnknownCmd (truncated): the message that is cut short carries a command code no dictionary
+	// knows - it would be refused anyway, but a stream that ends inside it has still not ended cleanly
+	UnknownCmd bool `json:"unknown_cmd,omitempty"`
 }
 
 type Case struct {
@@ -101,6 +104,9 @@ func (c Case) stream() (msgs [][]byte, all []byte, extra int) {
 	switch c.Tail.Kind {
 	case "truncated":
 		m := message(len(c.Fillers), 40)
+		if c.Tail.UnknownCmd {
+			m[5], m[6], m[7] = 0xff, 0xff, 0xfe
+		}
 		k := c.Tail.Keep
 		if k < 1 {
 			k = 1
@@ -436,7 +442,7 @@ func genCase(t *rapid.T) Case {
 	case 0, 1:
 		c.Tail.Kind = "clean"
 	case 2:
-		c.Tail = Tail{Kind: "truncated", Keep: rapid.IntRange(1, 79).Draw(t, "keep")}
+		c.Tail = Tail{Kind: "truncated", Keep: rapid.IntRange(1, 79).Draw(t, "keep"), UnknownCmd: rapid.IntRange(0, 3).Draw(t, "unknown-command") == 0}
 		if rapid.Bool().Draw(t, "keep-on-avp-boundary") {
 			c.Tail.Keep = rapid.SampledFrom([]int{20, 32}).Draw(t, "keep-boundary") // right after the header / after the first AVP
 		}
@@ -478,7 +484,7 @@ func genCase(t *rapid.T) Case {
 
 var prop = ev.Register(&ev.Prop[Case]{
 	ID: "C05", Name: "stream",
-	Rule: "1..6 messages with bodies around the 1 KiB pooled buffer (996..1040), tiny, ~4 KiB, ~70 KB and (rarely) 1..8 MiB, concatenated; tail = clean end / truncation 1..79 bytes into a further message / a header declaring length 0..19 followed by 0..120 bytes that look like further messages; fragmentation = one segment / runs of 1-byte reads / boundary-sized fragments, 1 in 6 scripted readers also return an empty read (0, nil) every 2nd..5th call; 1 in 4 cases with every message's last AVP unpadded and the declared length exact (not a multiple of 4); consumed by ReadMessage in a loop on a scripted reader (which counts the bytes asked for), on bytes.Reader / bytes.Buffer / strings.Reader (which know how much they hold), through a bufio.Reader of the default and of the smallest size, on a bare net.Conn (scripted; counts the bytes asked for), and by the library's connection loop, whose handler optionally answers every message while one transport write is refused with a temporary error; non-trivial = >=2 messages and a read boundary strictly inside a message",
+	Rule: "1..6 messages with bodies around the 1 KiB pooled buffer (996..1040), tiny, ~4 KiB, ~70 KB and (rarely) 1..8 MiB, concatenated; tail = clean end / truncation 1..79 bytes into a further message (1 in 4: one with an unknown command code) / a header declaring length 0..19 followed by 0..120 bytes that look like further messages; fragmentation = one segment / runs of 1-byte reads / boundary-sized fragments, 1 in 6 scripted readers also return an empty read (0, nil) every 2nd..5th call; 1 in 4 cases with every message's last AVP unpadded and the declared length exact (not a multiple of 4); consumed by ReadMessage in a loop on a scripted reader (which counts the bytes asked for), on bytes.Reader / bytes.Buffer / strings.Reader (which know how much they hold), through a bufio.Reader of the default and of the smallest size, on a bare net.Conn (scripted; counts the bytes asked for), and by the library's connection loop, whose handler optionally answers every message while one transport write is refused with a temporary error; non-trivial = >=2 messages and a read boundary strictly inside a message",
 	Gen:  genCase, Run: runCase, Classify: classify,
 })
 
@@ -489,6 +495,7 @@ func TestC05ExhaustiveSplits(t *testing.T) {
 	bases := []Case{
 		{Fillers: []int{0, 3}, Tail: Tail{Kind: "clean"}},
 		{Fillers: []int{1, 0, 2}, Tail: Tail{Kind: "truncated", Keep: 21}},
+		{Fillers: []int{2}, Tail: Tail{Kind: "truncated", Keep: 33, UnknownCmd: true}},
 		{Fillers: []int{2, 1}, Tail: Tail{Kind: "short-length", Declared: 19, Trailing: 44}},
 		{Fillers: []int{5}, Tail: Tail{Kind: "short-length", Declared: 0, Trailing: 8}},
 	}
